@@ -428,3 +428,63 @@ Example long_data_panics :
   | None => False
   end.
 Proof. vm_compute. reflexivity. Qed.
+
+(* the push limit as coded (`new_pos >= self.limit` fails): an accepted push
+   leaves the message strictly shorter than the limit *)
+Theorem push_ok_below_limit c ops s0 s a ws o s' l :
+  init c = Some s0 -> run_acc c s0 acc0 ops = (s, a, ws) -> all_alive ws ->
+  step c s o = (s', ROk) -> b_limit s = Some l -> mlen (w_buf (b_w s')) < l.
+Proof.
+  intros HI HR AL HS Hl. destruct (init_inv c s0 HI) as (HB0 & HC0).
+  destruct (run_acc_inv c ops s0 acc0 s a ws HB0 HC0 HR AL) as (HB & _).
+  assert (X : forall f, WSpec c f -> mb_push c s f = (s', ROk) -> mlen (w_buf (b_w s')) < l).
+  { intros f Hf E. destruct (mb_push_cases c s f HB Hf) as [(w' & _ & E' & _ & _ & _ & LH & _)|[(e' & E')|(x & E' & D)]];
+      rewrite E' in E; try discriminate.
+    - injection E as <-. destruct (upd_proj s w' (count_of s + 1)) as (P0 & _). rewrite P0.
+      rewrite Hl in LH. unfold limit_hit, limit_cmp_ge in LH. apply N.leb_gt in LH. exact LH.
+    - injection E as _ Ex. subst x. discriminate D. }
+  destruct o as [q|rr|udp opts| | | |l0]; cbn [step] in HS.
+  - destruct (b_sec s =? 0); [|discriminate]. eapply X; [apply compose_question_spec|exact HS].
+  - destruct (b_sec s =? 0); [discriminate|]. eapply X; [apply compose_record_spec|exact HS].
+  - destruct (b_sec s =? 3); [|discriminate]. eapply X; [apply compose_opt_spec|exact HS].
+  - destruct (b_sec s <? 3); discriminate.
+  - destruct (b_sec s =? 0); [discriminate|]. destruct (rewind c s); discriminate.
+  - destruct (rewind c s); discriminate.
+  - discriminate.
+Qed.
+
+(* non-vacuity of build_parse_total: a script over the hash compressor on a
+   stream target with a case variant, a failed push, a rewind and an OPT *)
+Definition ex_name1 : name := [[119;119;119]; [69;120]; [99;111;109]].   (* www.Ex.com. *)
+Definition ex_name2 : name := [[109]; [101;88]; [99;111;109]].           (* m.eX.com. *)
+Definition ex_ops : list op :=
+  [OpQ (mkQ ex_name1 1 1); OpNext;
+   OpR (mkR ex_name2 15 1 300 false [RBytes [0;10]; RName ex_name1]);
+   OpLimit (Some 50); OpR (mkR ex_name1 1 1 5 false [RBytes [1;2;3;4]]); OpLimit None;
+   OpNext; OpR (mkR ex_name1 2 1 5 false [RName ex_name2]); OpRewind;
+   OpR (mkR [] 6 1 5 true [RName ex_name2; RNameU ex_name1; RBytes [0;0;0;1]]);
+   OpNext; OpOpt 1232 [(10, 8, [1;2;3;4;5;6;7;8])]].
+
+Lemma ex_ops_wf : Forall wf_op_sized ex_ops.
+Proof.
+  assert (V : forall l, (1 <=? length l)%nat && (length l <=? 63)%nat && forallb (fun b => b <? 256) l = true -> valid_label l).
+  { intros l H. apply andb_true_iff in H as [H H3]. apply andb_true_iff in H as [H1 H2].
+    apply Nat.leb_le in H1, H2. split; [lia|]. unfold wf_bytes. apply Forall_forall. intros x Hx.
+    rewrite forallb_forall in H3. apply N.ltb_lt, H3, Hx. }
+  assert (N1 : name_ok ex_name1) by (split; [repeat constructor; apply V; reflexivity|cbn; lia]).
+  assert (N2 : name_ok ex_name2) by (split; [repeat constructor; apply V; reflexivity|cbn; lia]).
+  assert (N0 : name_ok []) by (split; [constructor|cbn; lia]).
+  unfold ex_ops. repeat constructor; cbn [wf_op wf_q wf_r q_name q_type q_class r_owner r_type r_class r_ttl r_data wf_item];
+    auto; try lia; try exact I; repeat constructor; auto; try lia; try exact I; cbn; try lia.
+Qed.
+
+Example build_parse_example :
+  let c := mkCfg None true KHash in
+  match c02_run c ex_ops with
+  | Some (s, a, ws) =>
+      ws = [ROk; RNone; ROk; RNone; RErr E_LIMIT; RNone; RNone; ROk; RNone; ROk; RNone; ROk] /\
+      length (a_q a) = 1%nat /\ length (a_an a) = 1%nat /\ length (a_ns a) = 1%nat /\ length (a_ar a) = 1%nat /\
+      c02_reread s a = true /\ mlen (stream_of s) = mlen (msg_of s) + 2
+  | None => False
+  end.
+Proof. vm_compute. repeat split; reflexivity. Qed.
